@@ -224,3 +224,44 @@ func TestUninstrumentedBlockIsHarnessTrouble(t *testing.T) {
 		t.Fatalf("expected harness trouble, got %+v", res)
 	}
 }
+
+func TestCondBroadcastAndSignal(t *testing.T) {
+	latch := func(wake func(c *Cond)) (int, *Result) {
+		released := 0
+		res := Run(t, Config{Chooser: pickLow{}}, func() {
+			var mu Mutex
+			c := NewCond(&mu)
+			open := false
+			var wg, ready WaitGroup
+			wg.Add(3)
+			ready.Add(3)
+			for i := 0; i < 3; i++ {
+				Go(func() {
+					defer wg.Done()
+					mu.Lock()
+					ready.Done()
+					for !open {
+						c.Wait() // registers before it unlocks mu
+					}
+					released++
+					mu.Unlock()
+				})
+			}
+			ready.Wait()
+			mu.Lock() // the last waiter has let go of mu inside Wait: all three are registered
+			open = true
+			mu.Unlock()
+			wake(c)
+			wg.Wait()
+		})
+		return released, res
+	}
+	// one Broadcast releases all three
+	if n, res := latch(func(c *Cond) { c.Broadcast() }); n != 3 || res.Deadlock || len(res.Panics) > 0 || !res.MainDone {
+		t.Fatalf("broadcast: released %d, result %+v", n, res)
+	}
+	// one Signal releases one; the other two stay blocked for ever
+	if n, res := latch(func(c *Cond) { c.Signal() }); n != 1 || !res.Deadlock || res.MainDone {
+		t.Fatalf("signal: released %d, expected 1 and a deadlock, got %+v", n, res)
+	}
+}
